@@ -322,8 +322,8 @@ def check_cse_mixin(ctx, model):
         stores = [e for e in ps.events if e.kind == "itemwrite"]
         computes = [e for e in ps.events if e.kind == "selfcall"
                     and e.name == "map_common_subexpression_uncached"]
-        missed = any(isinstance(v, tuple) and v[0] == "except"
-                     and "KeyError" in v[1] for _, _, v in ps.conds)
+        from ..rules import lookup_case
+        missed = lookup_case(ps, lambda t: True) == "miss"
         # the key: what the table is indexed with (hit) / stored under (miss)
         if not missed:
             key = ps.retval[-1] if ps.retval[0] == "index" else None
